@@ -112,7 +112,7 @@ void harness(void)
 	VERIF_ASSERT((ret == SQFS_ERROR_OUT_OF_BOUNDS) == g_zero,
 		     "C12.read_at.status");
 	if (ret == 0 && g_woff >= off && g_woff - off < n)
-		VERIF_ASSERT((uint8_t)buf[g_woff - off] == g_wval,
+		VERIF_ASSERT(((uint8_t *)buf)[g_woff - off] == g_wval,
 			     "C12.read_at.content");
 	VERIF_ASSERT(w.f.size == size0 && w.f.fd == g_fd, "C12.read_at.frame");
 
